@@ -390,7 +390,7 @@ impl Property for C06 {
         "C06"
     }
     fn rule(&self) -> String {
-        "cases: programs from the typed generator with the exotic profile (format strings over raw control characters incl. NUL, DEL, C1, NBSP, BOM, U+2028, astral and combining characters, YAML/S-expression/JSON metacharacters and look-alikes such as `null ~ true yes 1e3 0x1F .inf 2001-01-01 #t #nil`; identifiers such as nil t yes no on off y n NULL True NaN inf _; extreme integers), AST depth <= 25 by construction (deeper ones counted as excluded), plus a depth ladder 30..300 x {blocks, operators, calls, arrays, conditionals}. For each program `fml run` once, then per format {json, lisp, yaml} tape-chosen (quick: 2 per format) or all 210 (thorough) configurations of {-o file + --format, -o file.ext inferred, upper-case extension, -o dir + --format, stdout} x {file, stdin} for parse, {file inferred, file explicit, stdin explicit} x {-o file, -o dir, stdout} for compile, {file, stdin} for execute. oracle: every parse exits 0 and its text reloads in-process (same serde crate) to the parser's AST; compile succeeds exactly when run gets past compilation; bytes identical across formats/configurations and identical to compile(parse(src)) in-process; execute gives the same stdout and zero/non-zero status as run. non-trivial: the source contains a non-ASCII or control character or a format metacharacter, or nesting >= 10; distinct by source".into()
+        "cases: programs from the typed generator with the exotic profile (format strings over raw control characters incl. NUL, DEL, C1, NBSP, BOM, U+2028, astral and combining characters, YAML/S-expression/JSON metacharacters and look-alikes such as `null ~ true yes 1e3 0x1F .inf 2001-01-01 #t #nil`; identifiers such as nil t yes no on off y n NULL True NaN inf _; extreme integers), AST depth <= 25 by construction (deeper ones counted as excluded), plus a depth ladder 30..300 x {blocks, operators, calls, arrays, conditionals}. For each program `fml run` once, then per format {json, lisp, yaml} tape-chosen configurations (quick: 2 per format; thorough: all 210 for one tape-chosen format plus 4 for each other format) of {-o file + --format, -o file.ext inferred, upper-case extension, -o dir + --format, stdout} x {file, stdin} for parse, {file inferred, file explicit, stdin explicit} x {-o file, -o dir, stdout} for compile, {file, stdin} for execute. oracle: every parse exits 0 and its text reloads in-process (same serde crate) to the parser's AST; compile succeeds exactly when run gets past compilation; bytes identical across formats/configurations and identical to compile(parse(src)) in-process; execute gives the same stdout and zero/non-zero status as run. non-trivial: the source contains a non-ASCII or control character or a format metacharacter, or nesting >= 10; distinct by source".into()
     }
     fn assumptions(&self) -> Vec<String> {
         vec![
@@ -398,7 +398,7 @@ impl Property for C06 {
         ]
     }
     fn random_cases(&self, tier: Tier) -> u64 {
-        tier.pick(640, 3_000)
+        tier.pick(640, 2_000)
     }
     fn max_shrink_iters(&self) -> u32 {
         40
@@ -440,10 +440,30 @@ impl Property for C06 {
             ctx.exclude("ast-depth>25(known finding F6 territory)");
             return Ok(());
         }
+        // the real binary has no fuel: only programs the reference interpreter finishes within its
+        // fuel reach it (nested calls inside loops can take astronomically long)
+        if crate::refsem::run(&g.prog, crate::refsem::DEFAULT_FUEL).outcome == crate::refsem::Outcome::Fuel {
+            ctx.exclude("reference-fuel");
+            return Ok(());
+        }
         let src = render::text(&g.prog, render::Style::Minimal);
         let all = all_cfgs();
         let mut cfgs: Vec<(usize, Cfg)> = vec![];
         if ctx.tier == Tier::Thorough {
+            // all configurations for one tape-chosen format, a few for the other two
+            let full = t.pick(3);
+            for fi in 0..3 {
+                if fi == full {
+                    for c in &all {
+                        cfgs.push((fi, *c));
+                    }
+                } else {
+                    for _ in 0..4 {
+                        cfgs.push((fi, all[t.pick(all.len())]));
+                    }
+                }
+            }
+        } else if false {
             for fi in 0..3 {
                 for c in &all {
                     cfgs.push((fi, *c));
